@@ -200,7 +200,9 @@ class Bench:
                 res = s.run()
         finally:
             PP.os = real_os
-        self.check("final")
+        if res.outcome == "ok":
+            # after a deadlock/abort some task is parked in the middle of an operation: not quiescent
+            self.check("final")
         return res
 
     def cleanup(self):
@@ -216,6 +218,9 @@ class Bench:
 def judge(bench, res):
     viol = []
     classes = set()
+    crit = res.switched_in(in_critical, preempt_only=False)
+    # a violation without any task switch inside the pipe operations is not a race between them
+    seq = "" if crit else ":no-switch-inside-pipe-ops"
     for where, readable, n_out, n_err, eof, closed, flags in bench.checks:
         pending = []
         if n_out:
@@ -236,7 +241,7 @@ def judge(bench, res):
                 layer = "buffer-event-set-without-data"
             else:
                 layer = "orpipe-halves-clear-but-pipe-set"
-            viol.append(("readable-with-nothing-pending", layer, "%s: descriptor readable, buffers empty, no eof/close (%s)" % (where, flags)))
+            viol.append(("readable-with-nothing-pending", layer + seq, "%s: descriptor readable, buffers empty, no eof/close (%s)" % (where, flags)))
         elif should and not readable:
             if pp or forever:
                 layer = "posixpipe-flag-set-but-fd-empty"
@@ -244,7 +249,7 @@ def judge(bench, res):
                 layer = "orpipe-half-set-but-pipe-clear"
             else:
                 layer = "no-buffer-event-set:" + "+".join(pending)
-            viol.append(("unreadable-with-pending", layer, "%s: descriptor NOT readable although %s (%s)" % (where, "+".join(pending), flags)))
+            viol.append(("unreadable-with-pending", layer + seq, "%s: descriptor NOT readable although %s (%s)" % (where, "+".join(pending), flags)))
         classes.add("checked-readable" if readable else "checked-unreadable")
     if res.outcome == "deadlock":
         kinds = sorted(set(w[0] if isinstance(w, tuple) else str(w) for w in res.waits.values()))
@@ -260,7 +265,6 @@ def judge(bench, res):
     for name, info in res.tasks.items():
         if info.exc is not None:
             viol.append(("operation-raised", "%s" % type(info.exc).__name__, "%s: %s" % (name, info.tb)))
-    crit = res.switched_in(in_critical, preempt_only=False)
     if crit:
         classes.add("switch-inside-pipe-set/clear")
     if res.switched_in(lambda tag: tag[0] == "line" and tag[1] == "buffered_pipe.py", preempt_only=False):
@@ -341,7 +345,7 @@ def run_dfs(ctx, programs, k, trace, limit, label):
 def run(ctx):
     ctx.set_budget(60, 840)
     ctx.assume("switching granularity: source lines of pipe.py/buffered_pipe.py and lock operations (not bytecodes)")
-    ctx.explore(case_st, lambda c: execute(ctx, c), ctx.scale(5000, 30000))
+    ctx.explore(case_st, lambda c: execute(ctx, c), ctx.scale(4000, 30000))
     progs = dfs_programs()
     if ctx.tier == "thorough":
         mine = progs[ctx.worker :: ctx.nworkers]
